@@ -34,6 +34,45 @@ for fn in inside:
             mirror = {ast.Lt: ast.Gt, ast.Gt: ast.Lt, ast.LtE: ast.GtE, ast.GtE: ast.LtE, ast.Eq: ast.Eq, ast.NotEq: ast.NotEq}[type(nd.ops[0])]
             new = ast.Compare(left=nd.comparators[0], ops=[mirror()], comparators=[nd.left])
             edits.append((nd.lineno, nd.col_offset, nd.end_lineno, nd.end_col_offset, "(" + ast.unparse(new) + ")"))
+if kind == "meth":
+    SAFE = {"abs", "sqrt", "exp", "sum", "mean", "prod", "sign", "clamp", "argmin", "argmax", "unsqueeze", "squeeze", "any", "all", "tanh", "flatten", "cumsum"}
+    for fn in inside:
+        for nd in ast.walk(fn):
+            if isinstance(nd, ast.Call) and isinstance(nd.func, ast.Attribute) and nd.func.attr in SAFE and isinstance(nd.func.value, (ast.Name, ast.Attribute, ast.Subscript)) and not (isinstance(nd.func.value, ast.Name) and nd.func.value.id in ("torch", "np", "math", "F", "self")) and nd.lineno == nd.end_lineno and id(nd) not in seen and not any(isinstance(x, ast.Call) for x in ast.walk(nd.func.value)):
+                # only outermost candidates on a line range
+                if any(o[0] == nd.lineno and o[1] <= nd.col_offset and nd.end_col_offset <= o[3] for o in edits):
+                    continue
+                seen.add(id(nd))
+                new = ast.Call(func=ast.Attribute(value=ast.Name(id="torch", ctx=ast.Load()), attr=nd.func.attr, ctx=ast.Load()), args=[nd.func.value] + list(nd.args), keywords=list(nd.keywords))
+                edits.append((nd.lineno, nd.col_offset, nd.end_lineno, nd.end_col_offset, ast.unparse(new)))
+    # nested candidates overlap: keep the outermost per span
+    edits.sort(key=lambda e: (e[0], e[1], -e[3]))
+    kept = []
+    for e in edits:
+        if not any(k[0] == e[0] and k[1] <= e[1] and e[3] <= k[3] for k in kept):
+            kept.append(e)
+    edits = kept
+if kind == "early":
+    def leaves(block):
+        return bool(block) and isinstance(block[-1], (ast.Return, ast.Raise))
+    for fn in inside:
+        for nd in ast.walk(fn):
+            blk = getattr(nd, "body", None)
+            if not isinstance(blk, list):
+                continue
+            for st in blk:
+                if isinstance(st, ast.If) and st.orelse and leaves(st.body) and not (len(st.orelse) == 1 and isinstance(st.orelse[0], ast.If)) and st is blk[-1] and id(st) not in seen:
+                    seg = lines[st.lineno - 1 : st.end_lineno]
+                    if any("#" in ln for ln in seg):
+                        continue
+                    if any(o[0] <= st.lineno and st.end_lineno <= o[2] for o in edits):
+                        continue
+                    seen.add(id(st))
+                    ind = " " * st.col_offset
+                    head = ast.If(test=st.test, body=st.body, orelse=[])
+                    text = ast.unparse(ast.fix_missing_locations(head)) + "\n" + "\n".join(ast.unparse(x) for x in st.orelse)
+                    text = "\n".join((ind + ln) if i else ln for i, ln in enumerate(text.split("\n")))
+                    edits.append((st.lineno, st.col_offset, st.end_lineno, st.end_col_offset, text))
 if kind == "ifelse":
     for fn in inside:
         for nd in ast.walk(fn):
